@@ -502,6 +502,22 @@ def length_sweep(name, data):
             tree = copy.deepcopy(base)
             node_at(tree, path)[2] = bytes((i * 7 + ln) & 0x7F | 0x20 for i in range(ln))
             out.append((reassemble(data, L, tree), f"length-sweep:{k}.{FNAME.get((k, fid), fid)}={ln}"))
+    # the same fields with a NUL inside the string (legal Thrift binary; a C-string copy that measures with strlen but
+    # copies the declared length writes behind its allocation): short, one arena block and beyond one arena block
+    for (k, fid), path in list(kinds.items()) + [((k, fid), path) for path, k, fid, t in paths_of(base, "FileMetaData")
+                                                   if t in (T_LIST, T_SET) and node_at(base, path)[2][1] == T_BINARY and node_at(base, path)[2][2]][:2]:
+        for ln in (2, 9, 300, 65536, 70000):
+            tree = copy.deepcopy(base)
+            f = node_at(tree, path)
+            s = b"x\x00" + b"Z" * (ln - 2)
+            if isinstance(f[2], tuple):
+                tag, et, its, decl = f[2]
+                f[2] = (tag, et, [s] + list(its[1:]), decl)
+                lab = f"embedded-nul:{k}.{FNAME.get((k, fid), fid)}[0]={ln}"
+            else:
+                f[2] = s
+                lab = f"embedded-nul:{k}.{FNAME.get((k, fid), fid)}={ln}"
+            out.append((reassemble(data, L, tree), lab))
     return out
 
 
